@@ -88,7 +88,9 @@ CURS = ["USD", "EUR", "XBT", "U$D", "A B", "C,D", "GBP"]
 SECS = ["FOO", "BAR", "BRK.B", "X Y", "\u00c9TF", "A,B", 'Q"Q', "\u65e5\u672c", "a", "VFV.TO"]
 MEMOS = ["", "", "plain", " lead", "trail ", "a,b", 'say "hi"', "line1\nline2", "cr\r\nlf", "h\u00e9llo w\u00f6rld",
          "\u00a0nbsp\u00a0", "\u2003em", "tab\t", "!", ",", '"', "\n", "  ", "x\u3000", "Summary", "2021 gain summary (sell)",
-         '""', "a\rb", " \u00e9 ", "\u200b zwsp", "\u2028ls", "ogham\u1680", "\u0085nel"]
+         '""', "a\rb", " \u00e9 ", "\u200b zwsp", "\u2028ls", "ogham\u1680", "\u0085nel",
+         # cells a lenient reader could take for "no value" or for something else
+         "-", " - ", "--", "n/a", "None", "null", "0", "#", "# c", "=1+1", "'", "-5 correction"]
 
 
 def gen_car(rng, stats):
